@@ -8,6 +8,7 @@ import (
 	"fmt"
 	"net"
 	"net/http"
+	"slices"
 	"strings"
 	"sync"
 	"time"
@@ -97,6 +98,7 @@ func genC17(env *core.Env, emit func(core.Case)) {
 				var mu sync.Mutex
 				var calls []dialCall
 				si2 := 0
+				var cur []string
 				won := false // an attempt has succeeded: what the worker still starts before Dial's cancel() lands is a late attempt too
 				d := &ech.Dialer[*fakeTLS]{RequireECH: requireECH, Resolver: resolver, MaxConcurrency: 1, ConcurrencyDelay: time.Millisecond, Timeout: 5 * time.Second}
 				if usePN {
@@ -114,8 +116,8 @@ func genC17(env *core.Env, emit func(core.Case)) {
 					}
 					calls = append(calls, dialCall{a, tc.ServerName, tc.EncryptedClientHelloConfigList, false})
 					o := "err"
-					if si2 < len(script) {
-						o = script[si2]
+					if si2 < len(cur) {
+						o = cur[si2]
 					}
 					si2++
 					switch o {
@@ -131,117 +133,135 @@ func genC17(env *core.Env, emit func(core.Case)) {
 					}
 					return nil, errors.New("scripted dial error")
 				}
-				var tc *tls.Config
-				if callerECH || callerSN {
-					tc = &tls.Config{NextProtos: []string{"h2"}}
-					if callerECH {
-						tc.EncryptedClientHelloConfigList = bytes.Clone(callerList)
-					}
-					if callerSN {
-						tc.ServerName = "caller-sni.example"
-					}
+				// a Dialer is used for many connections: what one Dial call learnt from a server (a retry list, an
+				// error) is not what the next call's HTTPS records say
+				rounds := [][]string{script}
+				if si%2 == 1 || si == 4 {
+					rounds = append(rounds, []string{"ok"}, []string{"err", "ok"})
 				}
-				var before string
-				if tc != nil {
-					before = fmt.Sprintf("%q %x %q", tc.ServerName, tc.EncryptedClientHelloConfigList, tc.NextProtos)
-				}
-				conn, derr := d.Dial(context.Background(), "tcp", addr, tc)
-				// the model's inputs: targets as Dial derives them
-				var tt []string
-				for _, a := range strings.Split(addr, ",") {
-					a = strings.TrimSpace(a)
-					host, _, err := net.SplitHostPort(a)
-					if err != nil {
-						host = a
+				for round, cur0 := range rounds {
+					mu.Lock()
+					cur, calls, si2, won = cur0, nil, 0, false
+					mu.Unlock()
+					rtag := ""
+					if round > 0 {
+						rtag = fmt.Sprintf("/again%d", round)
 					}
-					res, err := resolver.Resolve(context.Background(), a)
-					if err != nil {
-						tt = append(tt, fmt.Sprintf("%s,-,nil,1", hs2(host)))
-						continue
+					var tc *tls.Config
+					if callerECH || callerSN {
+						tc = &tls.Config{NextProtos: []string{"h2"}}
+						if callerECH {
+							tc.EncryptedClientHelloConfigList = bytes.Clone(callerList)
+						}
+						if callerSN {
+							tc.ServerName = "caller-sni.example"
+						}
 					}
-					for t := range res.Targets("tcp") {
-						tt = append(tt, fmt.Sprintf("%s,%s,%s,0", hs2(host), hs2(t.Address.String()), echText(t.ECH)))
+					var before string
+					if tc != nil {
+						before = fmt.Sprintf("%q %x %q", tc.ServerName, tc.EncryptedClientHelloConfigList, tc.NextProtos)
 					}
-				}
-				echTok := func(b []byte) string {
-					switch {
-					case b == nil:
-						return "nil"
-					case bytes.Equal(b, callerList) || bytes.Equal(b, listA) || bytes.Equal(b, listB) || bytes.Equal(b, retry1) || bytes.Equal(b, retry2) || len(b) == 0:
+					conn, derr := d.Dial(context.Background(), "tcp", addr, tc)
+					// the model's inputs: targets as Dial derives them
+					var tt []string
+					for _, a := range strings.Split(addr, ",") {
+						a = strings.TrimSpace(a)
+						host, _, err := net.SplitHostPort(a)
+						if err != nil {
+							host = a
+						}
+						res, err := resolver.Resolve(context.Background(), a)
+						if err != nil {
+							tt = append(tt, fmt.Sprintf("%s,-,nil,1", hs2(host)))
+							continue
+						}
+						for t := range res.Targets("tcp") {
+							tt = append(tt, fmt.Sprintf("%s,%s,%s,0", hs2(host), hs2(t.Address.String()), echText(t.ECH)))
+						}
+					}
+					echTok := func(b []byte) string {
+						switch {
+						case b == nil:
+							return "nil"
+						case bytes.Equal(b, callerList) || bytes.Equal(b, listA) || bytes.Equal(b, listB) || bytes.Equal(b, retry1) || bytes.Equal(b, retry2) || len(b) == 0:
+							return core.Hex(b)
+						}
+						if specs, err := ech.ParseConfigList(b); err == nil && len(specs) == 1 && string(specs[0].PublicName) == d.PublicName && d.PublicName != "" {
+							return "boot"
+						}
 						return core.Hex(b)
 					}
-					if specs, err := ech.ParseConfigList(b); err == nil && len(specs) == 1 && string(specs[0].PublicName) == d.PublicName && d.PublicName != "" {
-						return "boot"
-					}
-					return core.Hex(b)
-				}
-				var ct []string
-				w := ""
-				mu.Lock()
-				callsNow := append([]dialCall{}, calls...)
-				mu.Unlock()
-				for _, c := range callsNow {
-					if !c.late {
-						ct = append(ct, fmt.Sprintf("%s,%s,%s", hs2(c.addr), hs2(c.sn), echTok(c.ech)))
-					}
-					if requireECH && c.ech == nil {
-						w = "RequireECH is set but DialFunc was called without an ECH config list (" + c.addr + ")"
-					}
-					if callerSN && c.sn != "caller-sni.example" {
-						w = "caller's ServerName replaced by " + c.sn
-					}
-					if !callerSN {
-						ok := false
-						for _, a := range strings.Split(addr, ",") {
-							h, _, _ := net.SplitHostPort(a)
-							if c.sn == h {
-								ok = true
+					var ct []string
+					w := ""
+					mu.Lock()
+					callsNow := append([]dialCall{}, calls...)
+					mu.Unlock()
+					for _, c := range callsNow {
+						if !c.late {
+							ct = append(ct, fmt.Sprintf("%s,%s,%s", hs2(c.addr), hs2(c.sn), echTok(c.ech)))
+						}
+						if (bytes.Equal(c.ech, retry1) && !slices.Contains(cur[:min(len(cur), len(callsNow))], "rej:1")) || (bytes.Equal(c.ech, retry2) && !slices.Contains(cur[:min(len(cur), len(callsNow))], "rej:2")) {
+							w = "an attempt was made with a retry config list that no server answer of this Dial call contained (" + c.addr + ")"
+						}
+						if requireECH && c.ech == nil {
+							w = "RequireECH is set but DialFunc was called without an ECH config list (" + c.addr + ")"
+						}
+						if callerSN && c.sn != "caller-sni.example" {
+							w = "caller's ServerName replaced by " + c.sn
+						}
+						if !callerSN {
+							ok := false
+							for _, a := range strings.Split(addr, ",") {
+								h, _, _ := net.SplitHostPort(a)
+								if c.sn == h {
+									ok = true
+								}
+							}
+							if !ok {
+								w = "TLS server name " + c.sn + " is not a host the caller named"
 							}
 						}
-						if !ok {
-							w = "TLS server name " + c.sn + " is not a host the caller named"
+					}
+					if tc != nil {
+						if after := fmt.Sprintf("%q %x %q", tc.ServerName, tc.EncryptedClientHelloConfigList, tc.NextProtos); after != before {
+							w = "the caller's tls.Config was mutated: " + before + " -> " + after
 						}
 					}
-				}
-				if tc != nil {
-					if after := fmt.Sprintf("%q %x %q", tc.ServerName, tc.EncryptedClientHelloConfigList, tc.NextProtos); after != before {
-						w = "the caller's tls.Config was mutated: " + before + " -> " + after
+					result := "fail"
+					if derr == nil && conn != nil {
+						result = hs2(conn.addr)
 					}
-				}
-				result := "fail"
-				if derr == nil && conn != nil {
-					result = hs2(conn.addr)
-				}
-				cech := "nil"
-				if callerECH {
-					cech = core.Hex(callerList)
-				}
-				sn := "-"
-				if callerSN {
-					sn = hs2("caller-sni.example")
-				}
-				pn := "-"
-				if usePN {
-					pn = hs2("public.example")
-				}
-				var outs []string
-				for _, o := range script {
-					switch o {
-					case "rej:1":
-						outs = append(outs, "rej:"+core.Hex(retry1))
-					case "rej:2":
-						outs = append(outs, "rej:"+core.Hex(retry2))
-					default:
-						outs = append(outs, o)
+					cech := "nil"
+					if callerECH {
+						cech = core.Hex(callerList)
 					}
+					sn := "-"
+					if callerSN {
+						sn = hs2("caller-sni.example")
+					}
+					pn := "-"
+					if usePN {
+						pn = hs2("public.example")
+					}
+					var outs []string
+					for _, o := range cur {
+						switch o {
+						case "rej:1":
+							outs = append(outs, "rej:"+core.Hex(retry1))
+						case "rej:2":
+							outs = append(outs, "rej:"+core.Hex(retry2))
+						default:
+							outs = append(outs, o)
+						}
+					}
+					ops := []core.Op{{Line: fmt.Sprintf("dial-cfg %d %s %s %s %s %s", b01(requireECH), pn, sn, cech, semi(tt), strings.Join(outs, ",")), Kind: 'M',
+						Want: fmt.Sprintf("calls=%s result=%s", semi(ct), result), Note: "Dial(" + addr + ")" + rtag},
+						{Kind: 'X', Note: "RequireECH => ECH list on every attempt; caller's ServerName/list never replaced; server name is a host the caller named; caller config not mutated", Want: w}}
+					sig := fmt.Sprintf("%s/f%d/s%d/c%d/%s", addr, flags, si, len(calls), result[:min(4, len(result))])
+					emit(core.Case{Name: fmt.Sprintf("dial/%d%s", idx, rtag), Stream: "dialcfg" + rtag, Ops: ops, Key: fmt.Sprintf("%s/f%d/s%d%s", addr, flags, si, rtag), Sig: sig + rtag,
+						Sample: map[string]any{"addr": addr, "require_ech": requireECH, "public_name": usePN, "caller_ech": callerECH, "caller_sni": callerSN, "script": cur, "round": round, "calls": len(calls), "result": result != "fail"}})
+					env.Count(fmt.Sprintf("calls%d", min(len(calls), 4)))
 				}
-				ops := []core.Op{{Line: fmt.Sprintf("dial-cfg %d %s %s %s %s %s", b01(requireECH), pn, sn, cech, semi(tt), strings.Join(outs, ",")), Kind: 'M',
-					Want: fmt.Sprintf("calls=%s result=%s", semi(ct), result), Note: "Dial(" + addr + ")"},
-					{Kind: 'X', Note: "RequireECH => ECH list on every attempt; caller's ServerName/list never replaced; server name is a host the caller named; caller config not mutated", Want: w}}
-				sig := fmt.Sprintf("%s/f%d/s%d/c%d/%s", addr, flags, si, len(calls), result[:min(4, len(result))])
-				emit(core.Case{Name: fmt.Sprintf("dial/%d", idx), Stream: "dialcfg", Ops: ops, Key: fmt.Sprintf("%s/f%d/s%d", addr, flags, si), Sig: sig,
-					Sample: map[string]any{"addr": addr, "require_ech": requireECH, "public_name": usePN, "caller_ech": callerECH, "caller_sni": callerSN, "script": script, "calls": len(calls), "result": result != "fail"}})
-				env.Count(fmt.Sprintf("calls%d", min(len(calls), 4)))
 			}
 		}
 	}
